@@ -54,7 +54,9 @@ _TMP = re.compile(r'^checkpoint_([0-9]{8})\.tmp$')
 _TSV = re.compile(r'^e([0-9]+)\.tsv$')
 P, M = 131, 1000003
 NUM_CLIENTS = 3
-ROOTS = ['run', 'run+1.(a)$']
+# index 2 is never generated: root_dir is not in the property's quantifier, and a root_dir with glob metacharacters
+# defeats tf.io.gfile.glob(base_path + '*') -- see known_findings_proposed/C09.json (replayable)
+ROOTS = ['run', 'run+1.(a)$', 'run[1]']
 
 
 # --------------------------------------------------------------------------
@@ -684,14 +686,6 @@ def nontrivial(case, obs):
 
 def describe(case, obs):
   cfg = case['cfg']
-  kinds = []
-  for c, r in zip(case['crashes'], obs['runs']):
-    if not r['crashed']:
-      kinds.append('after-completion')
-    else:
-      nxt = None
-      # the effect the crash prevented is the one at index k of the run that would have followed
-      kinds.append('crash')
   return {'algo': case['algo'], 'R': cfg['R'], 'freq': cfg['freq'], 'keep': cfg['keep'], 'evf': cfg['evf'],
           'nev': cfg['nev'], 'depth': len(case['crashes']),
           'crashes_that_happened': sum(1 for r in obs['runs'] if r['crashed']),
